@@ -11,6 +11,7 @@ KNOWN-FINDING lines); 1 violation (a line "VIOLATION property=<id> replay=<path>
 2 the harness failed one of its own gates (never presented as a verdict).
 """
 import argparse
+import concurrent.futures
 import fcntl
 import json
 import os
@@ -186,8 +187,10 @@ def run_batch(binaries, batch, seed, tier, known_file, outdir, workers=None, sam
     res = {"runs": 0, "fps": {}, "nontrivial_fps": set(), "totals": {}, "states": set(), "violations": [], "known_hits": {},
            "harness": [], "samples": [], "events": 0, "label": batch.label, "engine": batch.engine, "flavour": batch.flavour,
            "dup_violations": 0}
-    for p in procs:
-        out, err = p.communicate()
+    # drain all workers at once (a worker whose pipe is full would otherwise wait for its turn)
+    with concurrent.futures.ThreadPoolExecutor(max_workers=len(procs)) as ex:
+        outputs = list(ex.map(lambda pr: pr.communicate(), procs))
+    for p, (out, err) in zip(procs, outputs):
         for line in out.split("\n"):
             f = line.split("\t")
             if f[0] == "R" and len(f) >= 6:
@@ -448,8 +451,10 @@ def check(prop, tier, seed):
     for b in batches_for(prop, tier):
         r = run_batch(binaries, b, seed, tier, known_file, outdir)
         results.append(r)
-        log("batch {:<32} runs={:<6} distinct={:<6} violations={} known-hits={} wall={:.1f}s".format(
-            b.label, r["runs"], len(set(r["fps"].values())), len(r["violations"]) + r["dup_violations"], sum(r["known_hits"].values()), r["wall"]))
+        transient = r["totals"].get("transient_child_failures_not_reproduced", 0)
+        log("batch {:<32} runs={:<6} distinct={:<6} violations={} known-hits={} wall={:.1f}s{}".format(
+            b.label, r["runs"], len(set(r["fps"].values())), len(r["violations"]) + r["dup_violations"], sum(r["known_hits"].values()), r["wall"],
+            "  (child failures that did not reproduce, tolerated: {})".format(transient) if transient else ""))
     # 3. verdict
     harness = [h for r in results for h in r["harness"]]
     violations = regressions + [v for r in results for v in r["violations"]]
